@@ -179,6 +179,7 @@ type Exec struct {
 	noAutoInv  bool
 	fixedLen   map[int]*smt.Term // fixed length of sequence-valued spec terms
 	AutoInvs   int      // derived search-loop invariants used
+	LoopsTotal, LoopsTerminating int // loops executed symbolically / of those with a termination argument
 	Notes      []string // non-fatal remarks (dropped invariants, ...)
 }
 
@@ -440,7 +441,7 @@ func (e *Exec) zero(T types.Type) Value {
 	case *types.Slice:
 		return &SliceV{Elem: u.Elem(), Len: c.BVC(0, 64), Cap: c.BVC(0, 64), Alts: []SliceAlt{{Cond: c.True()}}}
 	case *types.Struct:
-		s := &StructV{T: u, F: make([]Value, u.NumFields())}
+		s := &StructV{T: u, F: make([]Value, u.NumFields()), Zero: true}
 		s.lazy = func(i int) Value { return e.zero(u.Field(i).Type()) }
 		return s
 	case *types.Array:
